@@ -288,6 +288,13 @@ fn key_kind(k: Kind) -> Kind {
     }
 }
 
+/// An Argon2 instance configured for an output length other than Nh: the
+/// library's KSF adapter hands it an Nh-byte buffer; whether that is refused
+/// or not is the argon2 crate's business, so the model predicts nothing.
+pub fn ksf_odd_output(a: &KsfArg, nh: usize) -> bool {
+    matches!(a, KsfArg::Argon2Out { out } if *out as usize != nh)
+}
+
 pub fn ksf_effective(a: &KsfArg, fam: KsfFamily) -> KsfArg {
     match (a, fam) {
         (KsfArg::Absent, KsfFamily::Sim) => KsfArg::Sim(0),
@@ -300,6 +307,8 @@ pub fn ksf_effective(a: &KsfArg, fam: KsfFamily) -> KsfArg {
             p: argon2::Params::DEFAULT_P_COST,
         },
         (KsfArg::Argon2 { m, t, p }, _) => KsfArg::Argon2Alg { alg: 2, v10: false, m: *m, t: *t, p: *p },
+        // an output length equal to the buffer's is the same function as "unset"
+        (KsfArg::Argon2Out { .. }, _) => KsfArg::Argon2Alg { alg: 2, v10: false, m: 8, t: 1, p: 1 },
         (x, _) => x.clone(),
     }
 }
@@ -967,7 +976,8 @@ impl<'a> Exec<'a> {
                     && ids.client.as_ref().map_or(true, |x| x.0.len() <= 65535)
                     && ids.server.as_ref().map_or(true, |x| x.0.len() <= 65535);
                 let p = match (&stm, &rsm) {
-                    (Some(Meta::ClientReg { .. }), Some(Meta::RegResp { .. })) if sizes_ok => Predict::Accept,
+                    (Some(Meta::ClientReg { .. }), Some(Meta::RegResp { .. })) if sizes_ok && !ksf_odd_output(ksf, self.s.lens().nh) => Predict::Accept,
+                    _ if !sizes_ok => Predict::Reject { invalid_login: false, why: "a parameter is longer than 65535 bytes" },
                     _ => Predict::Any,
                 };
                 let mut rng = self.tape(tape);
@@ -1331,6 +1341,9 @@ impl<'a> Exec<'a> {
         ksf: &KsfArg,
     ) -> (Predict, Option<usize>) {
         let rej = |why: &'static str, il: bool| (Predict::Reject { invalid_login: il, why }, None);
+        if ksf_odd_output(ksf, self.s.lens().nh) {
+            return (Predict::Any, None);
+        }
         let Some(rc) = &resp.canon else {
             return rej("response does not decode", false);
         };
